@@ -32,20 +32,21 @@ answer is a sound, complete page of the spec's visible sequence. -/
 theorem C07_model_meets_spec (c : Conf) (last : Int) (evs : List Event) (h : histOK last evs) :
     runOK (gInit c) (init c) evs = true := by
   suffices H : ∀ (evs : List Event) (g : Ghost) (s : State) (last : Int),
-      Refines g s → InvT s last → histOK last evs → runOK g s evs = true from
-    H evs (gInit c) (init c) last ⟨by simp [gInit, init, tagged], rfl⟩ (invT_init c last) h
+      Refines g s → Quiet s → InvT s last → histOK last evs → runOK g s evs = true from
+    H evs (gInit c) (init c) last ⟨by simp [gInit, init, tagged], rfl⟩ ⟨rfl, rfl⟩ (invT_init c last) h
   intro evs
   induction evs with
   | nil => intros; rfl
   | cons ev rest ih =>
-    intro g s last hr hi hh
+    intro g s last hr hq hi hh
     cases ev with
     | search sd r =>
       obtain ⟨hsd, hh'⟩ := hh
       simp only [runOK, modelEventOK, Bool.and_eq_true, Option.isNone_iff_eq_none]
-      exact ⟨specSearch_ok g s sd r hr hi.1 hsd, ih g s last hr hi hh'⟩
+      exact ⟨specSearch_ok g s sd r hr hi.1 hsd, ih g s last hr hq hi hh'⟩
     | op o =>
-      have hr' := refines_step g s o hr
+      have hr' := refines_step g s o hr hq
+      have hq' := quiet_step s o hq
       have hd : modelEventOK g s (.op o) = true := by
         simp only [modelEventOK, Option.isNone_iff_eq_none]
         exact specDump_ok _ _ hr'
@@ -54,45 +55,62 @@ theorem C07_model_meets_spec (c : Conf) (last : Int) (evs : List Event) (h : his
       cases o with
       | add e =>
         obtain ⟨hlt, hh'⟩ := hh
-        exact ih _ _ e.ts hr' (hstep hlt) hh'
-      | shutdown => exact ih _ _ last hr' hstep hh
-      | rotate => exact ih _ _ last hr' hstep hh
-      | rotCheck now => exact ih _ _ last hr' hstep hh
-      | clear => exact ih _ _ last hr' hstep hh
-      | restart m f en => exact ih _ _ last hr' hstep hh
-      | putConf en an ivl ign => exact ih _ _ last hr' hstep hh
-      | setClients tbl => exact ih _ _ last hr' hstep hh
+        exact ih _ _ e.ts hr' hq' (hstep hlt) hh'
+      | addThen e t =>
+        obtain ⟨hlt, hh'⟩ := hh
+        exact ih _ _ e.ts hr' hq' (hstep hlt) hh'
+      | shutdown => exact ih _ _ last hr' hq' hstep hh
+      | rotate => exact ih _ _ last hr' hq' hstep hh
+      | rotCheck now => exact ih _ _ last hr' hq' hstep hh
+      | clear => exact ih _ _ last hr' hq' hstep hh
+      | restart m f en => exact ih _ _ last hr' hq' hstep hh
+      | putConf en an ivl ign => exact ih _ _ last hr' hq' hstep hh
+      | setClients tbl => exact ih _ _ last hr' hq' hstep hh
 
 /-- Every state reached by a history whose clock moves forward satisfies the
-time invariant, and the model state is, entry for entry and location for
-location, the spec's log (refinement). -/
+time invariant, has nothing in flight (no flush goroutine waiting, the
+`flushPending` flag down), and is, entry for entry and location for location,
+the spec's log (refinement). -/
 theorem C07_inv_reachable (c : Conf) (ops : List Op) (last : Int)
     (h : histOK last (ops.map .op)) :
-    ∃ last', InvT (run (init c) ops) last' ∧
+    ∃ last', InvT (run (init c) ops) last' ∧ Quiet (run (init c) ops) ∧
       Refines (ops.foldl gStep (gInit c)) (run (init c) ops) := by
   suffices H : ∀ (ops : List Op) (g : Ghost) (s : State) (last : Int),
-      Refines g s → InvT s last → histOK last (ops.map .op) →
-      ∃ last', InvT (run s ops) last' ∧ Refines (ops.foldl gStep g) (run s ops) from
-    H ops (gInit c) (init c) last ⟨by simp [gInit, init, tagged], rfl⟩ (invT_init c last) h
+      Refines g s → Quiet s → InvT s last → histOK last (ops.map .op) →
+      ∃ last', InvT (run s ops) last' ∧ Quiet (run s ops) ∧ Refines (ops.foldl gStep g) (run s ops) from
+    H ops (gInit c) (init c) last ⟨by simp [gInit, init, tagged], rfl⟩ ⟨rfl, rfl⟩ (invT_init c last) h
   intro ops
   induction ops with
-  | nil => intro g s last hr hi _; exact ⟨last, hi, hr⟩
+  | nil => intro g s last hr hq hi _; exact ⟨last, hi, hq, hr⟩
   | cons o rest ih =>
-    intro g s last hr hi hh
-    have hr' := refines_step g s o hr
+    intro g s last hr hq hi hh
+    have hr' := refines_step g s o hr hq
+    have hq' := quiet_step s o hq
     have hstep := invT_step s last o hi
     simp only [run, List.foldl_cons]
     cases o with
     | add e =>
       obtain ⟨hlt, hh'⟩ := hh
-      exact ih _ _ e.ts hr' (hstep hlt) hh'
-    | shutdown => exact ih _ _ last hr' hstep hh
-    | rotate => exact ih _ _ last hr' hstep hh
-    | rotCheck now => exact ih _ _ last hr' hstep hh
-    | clear => exact ih _ _ last hr' hstep hh
-    | restart m f en => exact ih _ _ last hr' hstep hh
-    | putConf en an ivl ign => exact ih _ _ last hr' hstep hh
-    | setClients tbl => exact ih _ _ last hr' hstep hh
+      exact ih _ _ e.ts hr' hq' (hstep hlt) hh'
+    | addThen e t =>
+      obtain ⟨hlt, hh'⟩ := hh
+      exact ih _ _ e.ts hr' hq' (hstep hlt) hh'
+    | shutdown => exact ih _ _ last hr' hq' hstep hh
+    | rotate => exact ih _ _ last hr' hq' hstep hh
+    | rotCheck now => exact ih _ _ last hr' hq' hstep hh
+    | clear => exact ih _ _ last hr' hq' hstep hh
+    | restart m f en => exact ih _ _ last hr' hq' hstep hh
+    | putConf en an ivl ign => exact ih _ _ last hr' hq' hstep hh
+    | setClients tbl => exact ih _ _ last hr' hq' hstep hh
+
+/-- The flush goroutine that `Add` starts and a clear / shutdown / restart issued
+before it runs commute: either order ends in the same state, with nothing in
+flight — in particular the `flushPending` flag is down again, so later records
+are flushed as usual. -/
+theorem C07_flush_race_confluent (s : State) (e : Entry) (t : Then) (hq : Quiet s) :
+    step s (.addThen e t) = applyThen (step s (.add e)) t ∧ Quiet (step s (.addThen e t)) := by
+  refine ⟨?_, quiet_step s _ hq⟩
+  simp only [step, addThen_confluent s e t hq, runTasks_addRaw s e hq]
 
 /-! ## What the operations do to the log -/
 
@@ -103,13 +121,13 @@ theorem C07_log_preserved_flush (s : State) : logOf (flush s) = logOf s := logOf
 /-- With logging and file logging on and fewer entries in memory than the ring
 holds, recording appends exactly the new entry: nothing is dropped, nothing is
 duplicated. -/
-theorem C07_log_preserved_add (s : State) (e : Entry) (hen : s.conf.enabled = true)
+theorem C07_log_preserved_add (s : State) (e : Entry) (hq : Quiet s) (hen : s.conf.enabled = true)
     (hcap : s.mem.length < ringCap s.conf) : logOf (step s (.add e)) = logOf s ++ [e] := by
   have hp : push (ringCap s.conf) s.mem e = s.mem ++ [e] := by
     rw [push_eq_drop]
     have : (s.mem ++ [e]).length - ringCap s.conf = 0 := by simp; omega
     rw [this]; rfl
-  simp only [step, addEntry, hen, Bool.not_true, Bool.false_eq_true, if_false, hp]
+  simp only [step, runTasks_addRaw s e hq, addEntry, hen, Bool.not_true, Bool.false_eq_true, if_false, hp]
   split
   · rw [logOf_flush]; simp [logOf]
   · simp [logOf]
@@ -117,12 +135,14 @@ theorem C07_log_preserved_add (s : State) (e : Entry) (hen : s.conf.enabled = tr
 /-- The ring never fills up while file logging is on: after every operation of a
 history, fewer entries are in memory than the ring holds (so `C07_log_preserved_add`
 applies to every record). -/
-theorem C07_ring_never_full (s : State) (o : Op) (h : s.conf.fileEnabled = true → s.mem.length < ringCap s.conf) :
+theorem C07_ring_never_full (s : State) (o : Op) (hq : Quiet s)
+    (h : s.conf.fileEnabled = true → s.mem.length < ringCap s.conf) :
     (step s o).conf.fileEnabled = true → (step s o).mem.length < ringCap (step s o).conf := by
-  have hcap : 0 < ringCap s.conf := by unfold ringCap; split <;> omega
-  cases o with
-  | add e =>
-    simp only [step, addEntry]
+  have ringFree : ∀ s : State, 0 < ringCap s.conf := fun s => ringCap_pos s.conf
+  have hAdd : ∀ e, (addEntry s e).conf.fileEnabled = true →
+      (addEntry s e).mem.length < ringCap (addEntry s e).conf := by
+    intro e
+    simp only [addEntry]
     split
     · exact h
     · split
@@ -137,11 +157,29 @@ theorem C07_ring_never_full (s : State) (o : Op) (h : s.conf.fileEnabled = true 
         simp only
         have hle : s.conf.memSize ≤ ringCap s.conf := by unfold ringCap; split <;> omega
         omega
-  | shutdown =>
-    simp only [step, shutdown]
-    split
-    · intro _; simp only [flush]; split <;> simp_all
-    · exact h
+  have hThen : ∀ (s' : State) (t : Then),
+      (s'.conf.fileEnabled = true → s'.mem.length < ringCap s'.conf) →
+      (applyThen s' t).conf.fileEnabled = true →
+      (applyThen s' t).mem.length < ringCap (applyThen s' t).conf := by
+    intro s' t h'
+    cases t with
+    | clear => intro _; simpa [applyThen, clear] using ringFree s'
+    | shutdown =>
+      simp only [applyThen, shutdown]
+      split
+      · intro _; simp only [flush]; split <;> simp_all
+      · exact h'
+    | restart m f en =>
+      intro _
+      simp only [applyThen, restart, List.length_nil, ringCap]
+      by_cases hm : m = 0 <;> simp [hm]
+      omega
+  cases o with
+  | add e => simp only [step, runTasks_addRaw s e hq]; exact hAdd e
+  | addThen e t =>
+    simp only [step, addThen_confluent s e t hq]
+    exact hThen _ t (hAdd e)
+  | shutdown => exact hThen s .shutdown h
   | rotate => simp only [step, rotate]; split <;> exact h
   | rotCheck now =>
     simp only [step, rotCheck]
@@ -150,12 +188,8 @@ theorem C07_ring_never_full (s : State) (o : Op) (h : s.conf.fileEnabled = true 
     · split
       · exact h
       · simp only [rotate]; split <;> exact h
-  | clear => intro _; simpa [step, clear] using hcap
-  | restart m f en =>
-    intro _
-    simp only [step, restart, List.length_nil, ringCap]
-    by_cases hm : m = 0 <;> simp [hm]
-    omega
+  | clear => exact hThen s .clear h
+  | restart m f en => exact hThen s (.restart m f en) h
   | putConf en an ivl ign =>
     simp only [step, putConf]
     split
@@ -195,11 +229,11 @@ theorem C07_exactly_once (s : State) (h : Inv s) : (logOf s).Nodup ∧ ((logOf s
 
 /-- Memory-only logging keeps the newest `memSize` (at least one) entries: the
 documented window, not the whole history. -/
-theorem C07_memonly_window (s : State) (e : Entry) (hen : s.conf.enabled = true)
+theorem C07_memonly_window (s : State) (e : Entry) (hq : Quiet s) (hen : s.conf.enabled = true)
     (hf : s.conf.fileEnabled = false) :
     (step s (.add e)).mem = (s.mem ++ [e]).drop ((s.mem ++ [e]).length - ringCap s.conf) ∧
     (step s (.add e)).cur = s.cur ∧ (step s (.add e)).rot = s.rot := by
-  simp [step, addEntry, hen, hf, push_eq_drop]
+  simp [step, runTasks_addRaw s e hq, addEntry, hen, hf, push_eq_drop]
 
 /-! ## Requests -/
 
@@ -377,7 +411,7 @@ example : (st.rot.map (·.id), st.cur.map (·.id), st.mem.map (·.id)) = ([1, 2,
 
 private def req (limit offset search status : Bytes) (older : OlderIn := .absent) : Req :=
   { older := older, limitRaw := limit, offsetRaw := offset, searchRaw := search,
-    asciiRet := search, asciiErr := false, statusRaw := status }
+    loweredRaw := search, asciiRet := search, asciiErr := false, statusRaw := status }
 
 private def idsOf : Except Fault Resp → Option (List Nat × Option Int)
   | .ok (.ok es o) => some (es.map (·.id), o)
